@@ -306,7 +306,9 @@ def judge(n, ref, r, rt, probe_lit):
     if st in ("panic", "abort", "hang"):
         return st, f"compiler {st}: {r.get('panic') or r.get('stderr', '')[-120:]} at {r.get('loc')}"
     errs = r.get("errors", [])
-    line1 = [e for e in errs if e["loc"][0] in (0, 1, None)]
+    # the program has three lines: the definition, `print! N`, the probe.  Evaluation errors without a source position carry
+    # the line of the compiler's own source (EvalError::unreachable ... line!()), so everything that is not on line 2 / 3 is the definition's
+    line1 = [e for e in errs if e["loc"][0] not in (2, 3)]
     val = (r.get("values") or {}).get("N")
     if st == "err" and line1:
         return None, "diagnostic"
